@@ -389,6 +389,9 @@ namespace nmtools::functional
                 auto result_operands = [&](){
                     if constexpr (meta::is_tuple_v<decltype(result)>) {
                         return cat_operands(result,curried_operands);
+                    } else if constexpr (meta::is_maybe_v<decltype(result)> && meta::is_tuple_v<meta::get_maybe_type_t<decltype(result)>>) {
+                        // an optional operands pack (e.g. from a combinator that received an optional operand) is still a pack
+                        return cat_operands(unwrap(result),curried_operands);
                     } else {
                         return push_operands(result,curried_operands);
                     }
@@ -477,6 +480,9 @@ namespace nmtools::functional
                 auto result_operands = [&](){
                     if constexpr (meta::is_tuple_v<decltype(result)>) {
                         return cat_operands(result,curried_operands);
+                    } else if constexpr (meta::is_maybe_v<decltype(result)> && meta::is_tuple_v<meta::get_maybe_type_t<decltype(result)>>) {
+                        // an optional operands pack (e.g. from a combinator that received an optional operand) is still a pack
+                        return cat_operands(unwrap(result),curried_operands);
                     } else {
                         return push_operands(result,curried_operands);
                     }
